@@ -319,4 +319,50 @@ theorem sys_backed (u : USys) (es : List UEv) (hb : Backed u.abs) (hk : KeyedOk 
   have := run_sysinv es u ⟨hb, hk, fun c hm => (hc c hm).cinv _⟩
   exact ⟨this.1.backed, this.1.keyed, this.2⟩
 
+
+/-! ## witnesses: why the address hypotheses are there, and a race that needs a popper -/
+
+namespace W
+/-- an address with an out-of-range port … -/
+def badA : Addr := ⟨0, 65541⟩
+/-- … that shares its `Addr.key` with a valid one (the model's key is injective only on ports 1..65535; the real
+key, `Addr.String()`, is injective, and `addr.New` rejects such ports) -/
+def goodA : Addr := ⟨1, 5⟩
+
+/-- a backed, keyed store whose only row has the out-of-range address -/
+def badState : AbsState := { servers := (∅ : ExtTreeMap Nat SRow).insert badA.key ⟨{ addr := badA, queryPort := 1, status := Status.master, info := [], details := ⟨[], [], []⟩, refreshedAt := some 0, version := 1 }, 0⟩ }
+
+/-- a client as the system model runs it: the use case followed by a rendering of its result -/
+def client {α : Type} (p : Prog α) : UClient := { prog := p.bind fun _ => pure "done" }
+
+/-- reporter of `badA`, a cleaner that removes everything, two reporters of `goodA` -/
+def collisionSys : USys := { clock := 1000, clients := [
+  client (UC.report [] 2 ⟨badA, 1, 7, some []⟩),
+  client (UC.cleanServers (-100)),
+  client (UC.report [] 2 ⟨goodA, 6, 8, some []⟩),
+  client (UC.report [] 2 ⟨goodA, 6, 9, some []⟩)] }
+
+/-- `badA`'s reporter creates the row and enqueues; the cleaner removes the row; the first `goodA` reporter creates
+a row under the same key, the second one rewrites it; then the first reporter's mark lands on it -/
+def collisionEvents : List UEv :=
+  [.call 0, .call 0, .call 0, .call 0, .call 1, .call 1, .call 2, .call 2, .call 3, .call 3, .call 0]
+
+/-- a minimal prober: pop one probe, execute it with a failed outcome -/
+def popper : Prog String := .call (.popMany 1) fun r =>
+  match r with
+  | .error _ => pure "err"
+  | .ok (ps, _) => match ps with | [p] => (UC.probe p none).bind fun _ => pure "probed" | _ => pure "none"
+
+/-- A is marked `port_retry` and its probe is queued: fully backed -/
+def staleState : AbsState := { state with queue := [⟨0, probe, 0, none⟩] }
+
+/-- a reporter of A, a cleaner, a prober -/
+def staleSys : USys := { abs := staleState, clock := 1000, clients := [
+  client (UC.report [] 2 ⟨A, 10481, 7, some []⟩), client (UC.cleanServers (-100)), { prog := popper }] }
+
+/-- the reporter looks A up (marked copy); the cleaner scans and removes A; the prober pops A's probe and finds no
+server; the reporter adds its stale copy — mark included — as a new row and, seeing the mark, enqueues nothing -/
+def staleEvents : List UEv := [.call 0, .call 1, .call 1, .call 2, .call 2, .call 0, .call 0, .call 0]
+end W
+
 end Swat4.C16
